@@ -37,6 +37,9 @@ res=$OUT/checks.txt; : > $res
 for p in ${CHECKS:-C01 C02 C03 C04 C05 C06 C07 C08 C09 C10 C11 C12 C13 C14 C15 C16}; do
   ./check $p --tier quick 2>&1 | grep -v "^KNOWN" | tail -2 | sed "s/^/$p: /" >> $res
 done
+# keep the replay files the checks wrote (one per property at most): the concrete failing histories
+mkdir -p $OUT/replays && rm -f $OUT/replays/*.json
+for f in $(grep -o "replay=[^ ]*" $res | cut -d= -f2); do [ -f "$f" ] && cp "$f" $OUT/replays/; done
 rm -rf $VERIF_OUT
 echo "caught_by=$(grep VIOLATION $res | sed 's/.*property=\(C[0-9]*\).*/\1/' | sort -u | tr '\n' ' ')" | tee -a $res
 exit 0
